@@ -448,3 +448,27 @@ def r12(ctx):
 
 
 RULES.append(("C15.R12", "T5", "a READ's custom handler receives every fragment (it is never taken out of the task)", r12))
+
+
+def r13(ctx):
+    """'anything else (... malformed) neither completes the request successfully': a request that expects an EMPTY response succeeds only
+    when the response carries no object bytes at all - the test is on the raw object section (`raw_objects.is_empty()`), so objects
+    that fail to parse (truncated header, unknown group) are not mistaken for 'no objects'."""
+    prog = ctx.prog
+    bd = prog.body("master::tasks::empty_response::EmptyResponseTask::handle")
+    sym = ctx.sym(bd)
+    oks = []
+    for c in call_sites(bd, r"Promise<.*>::complete$|Promise::complete$"):
+        e = sym.call_expr(c.term)
+        if mentions(e[2][1], lambda s: s[0] == "agg" and s[2] == "Ok"):
+            oks.append(c)
+    if len(oks) != 1:
+        raise AnchorError("EmptyResponseTask::handle: success completions %d" % len(oks))
+    raw_empty = g_bool(lambda x: mentions_field(x, "raw_objects") and mentions_call(x, r"::is_empty$"), True)
+    ctx.require_guards(bd, oks[0].idx, [("response.raw_objects.is_empty()", raw_empty)], "empty-response:success", "completing the request successfully")
+    for b, si, st, e in ret_sites(bd, sym):
+        if e[0] == "agg" and e[2] == "Ok":
+            ctx.require_guards(bd, b.idx, [("response.raw_objects.is_empty()", raw_empty)], "empty-response:Ok", "Ok(None)")
+
+
+RULES.append(("C15.R13", "T2", "a request expecting an empty response succeeds only when the raw object section is empty", r13))
